@@ -199,8 +199,12 @@ Print Assumptions C19_source_slot_actions.
 Theorem C19_source_filters : forall k,
   gen_c19_gridcell_keeps k = negb (k =? S_DICT) /\
   gen_c19_gridcell_legacy_keeps k = gen_c19_gridcell_keeps k /\
-  gen_c19_grid_state_keeps k = negb (k =? A_CELL_KLASS).
-Proof. intros k. split; [apply gridcell_keeps_bridge|split; [apply gridcell_legacy_bridge|apply grid_state_keeps_bridge]]. Qed.
+  gen_c19_grid_state_keeps k = negb (k =? A_CELL_KLASS) /\
+  gen_c19_cell_dict_keeps K_EMPTY = true.
+Proof.
+  intros k. split; [apply gridcell_keeps_bridge|split; [apply gridcell_legacy_bridge|split; [apply grid_state_keeps_bridge|]]].
+  exact cell_dict_keeps_empty.
+Qed.
 Print Assumptions C19_source_filters.
 
 (* the model's copy functions ARE the translated code (gen_copy_space / gen_copy_set are written with the gen_c19_*
